@@ -65,7 +65,7 @@ func main() {
 		replayFile(r.ReplayArg)
 	}
 	thorough := r.Thorough()
-	r.Rule("grammar: every derivation within: sections<=2 (3 thorough), items per section<=2, params per function/annotation<=2, '&&' chains<=2 (3), value lists<=2 (3), nesting depth<=3; literal styles bare ID / bare NON_ID / '..' / \"..\"; with/without key, '!', annotation, outbound bare or function — the full product per single item (quick: members of a 2-chain take one parameter from {bare,'..'}x{keyed,plain}x{!,plain}); two-item sections = every item shape x 4 (10) representative neighbours in both orders; nested and multi-section programs over 10 representative items. Each derivation is spelled compactly and fully spaced, and single-item/nested/multi-section ones additionally with each of 6 (8) kinds of white space / comment inserted at every token boundary, one at a time (thorough: also at the junction of two-item sections). nearmiss: every single-token delete / duplicate / adjacent swap of " + strconv.Itoa(len(nearMissSeeds)) + " valid seeds, on the visible tokens (re-spaced) and on all tokens incl. white space and comments (concatenated), each mutant alone and after a valid leading section; thorough adds all pairs of such mutations on visible tokens (after a valid leading section). bytes: every string of length<=4 (5) over 21 symbols bare and <=4 inside the body of a section that follows a valid one, <=3 (4) in six inner contexts (first-section body; after a valid section: rule parameter list, declaration value, outbound parameter list, annotation, outbound position). typed: config.New structure matrix, rule function(16) x key(11) x value(12/27) x negation matrix through the production optimizer chain into the traffic, DNS-request and DNS-response compilers, outbound/fallback variants, programs of 1022..1026 and 2048 match sets in 5 shapes (+DNS). include: all 4096 ordered include graphs on 3 files + 95-case path-spelling / file-kind / permission matrix on a real directory tree. A case is one distinct text (duplicates are dropped before evaluation) or one file tree / configuration; a text case is NON-TRIVIAL when it is lexically well-formed and has at least two parser-visible tokens (it gets past the lexer and gives parser and walker something to do); typed and include cases are all distinct by construction and non-trivial; distinct_nontrivial is the measured count of such cases, evaluations counts every executed case incl. lexically broken texts.")
+	r.Rule("grammar: every derivation within: sections<=2 (3 thorough), items per section<=2, params per function/annotation<=2, '&&' chains<=2 (3), value lists<=2 (3), nesting depth<=3; literal styles bare ID / bare NON_ID / '..' / \"..\"; with/without key, '!', annotation, outbound bare or function — the full product per single item (quick: members of a 2-chain take one parameter from {bare,'..'}x{keyed,plain}x{!,plain}); two-item sections = every item shape x 4 (10) representative neighbours in both orders; nested and multi-section programs over 10 representative items. Each derivation is spelled compactly and fully spaced, and single-item/nested/multi-section ones additionally with each of 6 (8) kinds of white space / comment inserted at every token boundary, one at a time (thorough: also at the junction of two-item sections). nearmiss: every single-token delete / duplicate / adjacent swap of " + strconv.Itoa(len(nearMissSeeds)) + " valid seeds, on the visible tokens (re-spaced) and on all tokens incl. white space and comments (concatenated), each mutant alone and after a valid leading section; thorough adds all pairs of such mutations on visible tokens (after a valid leading section). bytes: every string of length<=4 (5) over 21 symbols bare and <=4 inside the body of a section that follows a valid one, <=3 (4) in six inner contexts (first-section body; after a valid section: rule parameter list, declaration value, outbound parameter list, annotation, outbound position). typed: config.New structure matrix, rule function(16) x key(11) x value(12/27) x negation matrix through the production optimizer chain into the traffic, DNS-request and DNS-response compilers, outbound/fallback variants, programs of 1022..1026 and 2048 match sets in 5 shapes (+DNS). include: all 4096 ordered include graphs on 3 files; path spelling as a graph dimension — the full per-edge product of 6 spellings (relative, ./relative, absolute, absolute with /./, with //, with sub/../) on 9 canonical cyclic / repeated-inclusion / chain shapes (thorough: all 4096 graphs again in each non-plain spelling); every Merge runs in a child process under a non-termination guard (a file opened > 64 times during one Merge); + 97-case path-spelling / file-kind / permission matrix on a real directory tree. A case is one distinct text (duplicates are dropped before evaluation) or one file tree / configuration; a text case is NON-TRIVIAL when it is lexically well-formed and has at least two parser-visible tokens (it gets past the lexer and gives parser and walker something to do); typed and include cases are all distinct by construction and non-trivial; distinct_nontrivial is the measured count of such cases, evaluations counts every executed case incl. lexically broken texts.")
 	legs := map[string]bool{}
 	for _, l := range strings.Split(*fLegs, ",") {
 		legs[l] = true
@@ -83,6 +83,7 @@ func main() {
 		r.Set(leg+"_wall_s", int(time.Since(legStart).Seconds()))
 		var acc, rej, base, shapes, ev, dist int64
 		merged := map[string]*shardViol{}
+		summed := map[string]int64{}
 		for _, res := range results {
 			ev += res.Evaluations
 			dist += res.Distinct
@@ -120,9 +121,19 @@ func main() {
 					r.Sample(map[string]any{"leg": leg, "text": s})
 				}
 			}
+			if res.Extra["merge_guard_stalls"] != 0 {
+				r.CapHit("include leg: a Merge() neither finished nor met the non-termination criterion within the 10 min hang guard (no verdict for that case)")
+			}
 			for k, v := range res.Extra {
+				if k == "merge_guard_stalls" || k == "repeated_inclusion_rejected" { // per-shard counts: summed
+					summed[k] += v
+					continue
+				}
 				r.Set(leg+"_"+k, v)
 			}
+		}
+		for k, v := range summed {
+			r.Set(leg+"_"+k, v)
 		}
 		evals.Add(ev)
 		distinct += dist
